@@ -94,7 +94,7 @@ loop:
 		cols = append(cols, n)
 	}
 
-	res := make([]int, len(cols))
+	res := make([]int, len(schema.Columns))
 loop2:
 	for i, c := range schema.Columns {
 		n := strings.ToLower(c.Column)
